@@ -32,6 +32,8 @@ type Target struct {
 	OutFiles    []string          `json:"out_files,omitempty"`
 	OutDirs     []string          `json:"out_dirs,omitempty"`
 	Bin         string            `json:"bin,omitempty"`
+	// InPlace: file outputs that exist already are rewritten in place instead of being removed and created anew
+	InPlace bool `json:"in_place,omitempty"`
 	// NoCommand: a grouping target (dependencies only): grog runs nothing for it, so it never shows in the trace
 	NoCommand bool `json:"no_command,omitempty"`
 	Nonce       int               `json:"nonce"`
@@ -555,7 +557,12 @@ func (w WS) Command(t *Target) string {
 		if t.SwapOuts && len(t.OutFiles) >= 2 && i < 2 {
 			role = 1 - i
 		}
-		fmt.Fprintf(&b, "mkdir -p \"$(dirname %s)\"; rm -rf %s; if [ ! -f \"$EXT/skipout.%s.%d\" ]; then cp \"$body\" %s", shQuote(f), shQuote(f), id, i, shQuote(f))
+		if t.InPlace {
+			// rewrite an existing regular file in place (same inode), as `cmd > out` does
+			fmt.Fprintf(&b, "mkdir -p \"$(dirname %s)\"; if [ -L %s ] || [ ! -f %s ] || [ -f \"$EXT/skipout.%s.%d\" ]; then rm -rf %s; fi; if [ ! -f \"$EXT/skipout.%s.%d\" ]; then cat \"$body\" > %s", shQuote(f), shQuote(f), shQuote(f), id, i, shQuote(f), id, i, shQuote(f))
+		} else {
+			fmt.Fprintf(&b, "mkdir -p \"$(dirname %s)\"; rm -rf %s; if [ ! -f \"$EXT/skipout.%s.%d\" ]; then cp \"$body\" %s", shQuote(f), shQuote(f), id, i, shQuote(f))
+		}
 		if role > 0 {
 			fmt.Fprintf(&b, "; printf '#%d\\n' >> %s", role, shQuote(f))
 		}
